@@ -185,7 +185,7 @@ func raceReplayMain(rf *ReplayFile) int {
 	}
 	for i := 0; i < 30; i++ {
 		st := newStats()
-		ck.Run(rf.Case, st)
+		runCase(ck, rf.Case, st)
 	}
 	return 0
 }
